@@ -60,7 +60,7 @@ impl Check for C07 {
             let files = super::c11::corpus_files();
             let Some(path) = files.get(case.n as usize % files.len().max(1)) else { return };
             let Ok(text) = std::fs::read_to_string(path) else { return };
-            if text.len() > sh.tier.pick(60_000, 400_000) {
+            if text.len() > sh.tier.pick(60_000, 120_000) {
                 sh.count("corpus_files_skipped_for_size", 1);
                 return;
             }
